@@ -186,4 +186,11 @@ theorem async_set_mode_changes_locally_after_the_exchange :
     "self.change_watercare_mode" ∈ Coop.actions .call Generated.Skeletons.sk_automation_watercare__GeckoWaterCare_async_set_mode := by
   decide +kernel
 
+/-- **every plain (non-awaitable) command starts its own task**: `AsyncTasks.add_task`, through which `press` and the structure's
+`set_value` hand their command coroutine to the event loop, creates a task on EVERY normal end - there is no path that drops the
+coroutine (because one of the same name is still running, say), so two commands issued back to back are two exchanges -/
+theorem every_plain_command_gets_its_task :
+    Coop.everyNormalEndDid (fun a => a.kind == .call && a.name == "asyncio.create_task") Skeletons.sk_async_tasks__AsyncTasks_add_task = true ∧
+    Coop.actions .brT Skeletons.sk_async_tasks__AsyncTasks_add_task = [] := by decide +kernel
+
 end GeckoModel.C13
